@@ -151,10 +151,10 @@ _p('C18', 'other',
    'DESIGN.md sections 6 (C18), 8.4')
 
 _p('C19', 'other',
-   'Bounded contract checks of the readers.  Binary reader (io::read_crs, read_dense, crs_size; abstract file = symbolic byte array of symbolic length up to the bound): for EVERY file content and length the reader either throws or returns with every access in bounds and a structurally valid matrix; row-range read equals the slice of the full read on well-formed files.  MatrixMarket coordinate reader (io::mm_reader::operator(), real body, text parsing abstracted to an entry stream with symbolic per-line parse failures, truncation and index values): range read == slice of the full read, symmetric storage expanded to the full matrix, sorted well-formed CRS, throws exactly on wrong kind / bad or negative sizes / truncation / unparsable line / index outside the matrix, every vector access in bounds.',
-   'Text parsing itself (number syntax, the decimal round trip of values), the MatrixMarket banner parsing, the dense MatrixMarket reader and all writers are outside CBMC\'s reach. The abstract file (read/seekg/fail bit) and the abstract entry stream are trusted models.',
+   'Bounded contract checks of the readers.  Binary reader (io::read_crs, read_dense, crs_size; abstract file = symbolic byte array of symbolic length up to the bound): for EVERY file content and length the reader either throws or returns with every access in bounds and a structurally valid matrix; row-range read equals the slice of the full read on well-formed files.  MatrixMarket coordinate and dense readers (io::mm_reader::operator(), real bodies, text parsing abstracted to an entry stream with symbolic per-line parse failures, truncation and index values): range read == slice of the full read, symmetric storage expanded to the full matrix, sorted well-formed CRS, throws exactly on wrong kind / bad or negative sizes / truncation / unparsable line / index outside the matrix, every vector access in bounds.',
+   'Text parsing itself (number syntax, the decimal round trip of values), the MatrixMarket banner parsing and all writers are outside CBMC\'s reach. The abstract file (read/seekg/fail bit) and the abstract entry stream are trusted models.',
    TECH_BOUNDED, ['binary reader: no out-of-bounds, no invalid matrix for any file up to the bound', 'MatrixMarket coordinate reader: slice property, symmetric expansion, clean failure on damaged entries (parsing abstracted)'],
-   ['decimal round trip', 'writers', 'MatrixMarket dense reader and banner parsing'],
+   ['decimal round trip', 'writers', 'MatrixMarket banner parsing'],
    'DESIGN.md sections 6 (C19), 9 (F4, F14), 10 (C19d)')
 
 NOT_APPLICABLE = {
